@@ -126,7 +126,8 @@ PROPERTIES = {
     # ---- properties whose content is mostly SQL / engine semantics: a deductive slice (fakesnow-side plumbing) plus a bounded differential tier
     "C01": {
         "level": "other",
-        "targets": [F("conn.FakeSnowflakeConnection.__init__"), F("cursor.FakeSnowflakeCursor.fetchmany"), F("cursor.FakeSnowflakeCursor.fetchone"), F("cursor.FakeSnowflakeCursor.fetchall")],
+        "targets": [F("conn.FakeSnowflakeConnection.__init__"), F("cursor.FakeSnowflakeCursor.fetchmany"), F("cursor.FakeSnowflakeCursor.fetchone"), F("cursor.FakeSnowflakeCursor.fetchall"),
+                    F("transforms.float_to_double"), F("transforms.semi_structured_types"), F("transforms.timestamp_ntz")],
         "also": {"fakesnow.cursor.FakeSnowflakeCursor.fetchmany": [r"C05\.fetchmany"], "fakesnow.cursor.FakeSnowflakeCursor.fetchone": [r"C05\.fetchone"], "fakesnow.cursor.FakeSnowflakeCursor.fetchall": [r"C05\.fetchall"]},
         "bounded": "bounded.C01",
         "trusted_base": [A_DUCK, "A-ARROW: pyarrow to_pylist conversion of DuckDB's arrow result to Python values"],
@@ -164,7 +165,8 @@ PROPERTIES = {
     },
     "C10": {
         "level": "other",
-        "targets": [F("transforms.values_columns"), F("transforms.dateadd_date_cast"), F("cursor.FakeSnowflakeCursor._transform"), F("cursor.FakeSnowflakeCursor._execute")],
+        "targets": [F("transforms.values_columns"), F("transforms.dateadd_date_cast"), F("transforms.regex_replace"), F("transforms._get_to_number_args"),
+                    F("cursor.FakeSnowflakeCursor._transform"), F("cursor.FakeSnowflakeCursor._execute")],
         "also": {"fakesnow.cursor.FakeSnowflakeCursor._transform": [r"C11\.pipeline\.order"]},
         "labelled_only": ["fakesnow.cursor.FakeSnowflakeCursor._execute"],
         "bounded": "bounded.C10",
@@ -176,7 +178,9 @@ PROPERTIES = {
     },
     "C11": {
         "level": "other",
-        "targets": [F("cursor.FakeSnowflakeCursor._transform")],
+        "targets": [F("transforms.indices_to_json_extract"), F("transforms.json_extract_precedence"), F("transforms.flatten_value_cast_as_varchar"), F("transforms.semi_structured_types"),
+                    F("cursor.FakeSnowflakeCursor._transform")],
+        "also": {"fakesnow.transforms.semi_structured_types": [r"C01\.semi\."]},
         "bounded": "bounded.C11",
         "trusted_base": [A_DUCK, A_SQLGLOT, "A-TX: node-level JSON rewrites in transforms.py are not under contract"],
         "explanation": "JSON semantics are decided by DuckDB's json extension on the rewritten SQL. Deductive slice: the order-sensitive JSON rewrites run in the order their correctness depends on "
